@@ -196,6 +196,8 @@ def obs_violation(o):
 
 
 def drop_kind(cls):
+    if cls == "undec:ccs-epoch":
+        return "change_cipher_spec-typed record claiming a protected epoch (taken as cleartext, never authenticated)"
     if cls.startswith("unsplit"):
         return "datagram that does not split into DTLS records"
     if cls.startswith("undec"):
@@ -206,6 +208,9 @@ def drop_kind(cls):
 
 
 def site_of(cls):
+    if cls == "undec:ccs-epoch":
+        return ("pkg/crypto/ciphersuite *.Decrypt (change_cipher_spec records returned unchanged) / conn.go "
+                "handleIncomingPacket (RecordLayer.Unmarshal error at epoch >= 1 -> fatal alert + error)")
     if cls.startswith("unsplit"):
         return "conn.go readAndProcessDatagram/unpackDatagram + classifyReadLoopError"
     if cls.startswith("undec"):
@@ -229,8 +234,8 @@ def model_term(o):
         k = "KUndecHs" if cls == "undec:hs" else ("KUndecContent" if o.get("fresh") else "KUndecStale")
     e = o["eff"]
     alert = e.get("alert", "")
-    return "(%s, %s, %s, (%s, %s, %s, %s))" % (
-        cbool(o.get("neg", False)), cbool(o["est"]), k, cbool(bool(e.get("hs_err")) or bool(e.get("read_err"))),
+    return "(%s, %s, (%s, %s, %s, %s))" % (
+        cbool(o["est"]), k, cbool(bool(e.get("hs_err")) or bool(e.get("read_err"))),
         cbool(alert != ""), cbool(bool(e.get("closed"))), cbool(bool(e.get("deliv"))))
 
 
@@ -373,19 +378,28 @@ def run(chk):
                         "[variant %s stage %d]" % (c["variant"], c["stage"]), {"case": c})
             break
     ff = [c for c in cases if c["gen"] == "flood-frag"]
-    bad = [c for c in ff if not (c["done"] and c["echo_cs"] and c["echo_sc"])]
-    if bad:
-        c = sorted(bad, key=lambda c: (c["stage"] >= 0, c["id"]))[0]
+    # two different defects, two signatures: (a) an ESTABLISHED connection no longer delivers application data
+    # (repaired in 826a95e, must stay detectable), (b) a handshake IN PROGRESS never completes
+    for phase, sel in (("established", [c for c in ff if c["stage"] < 0]), ("handshake", [c for c in ff if c["stage"] >= 0])):
+        bad = [c for c in sel if not (c["done"] and c["echo_cs"] and c["echo_sc"])]
+        if not bad:
+            continue
+        c = sorted(bad, key=lambda c: c["id"])[0]
         found = True
-        chk.finding("internal/fragmentbuffer/fragment_buffer.go Push (limit check precedes the content-type check) / "
-                    "conn.go bufferHandshakeRecord",
-                    {"monitor": "receive path wedged by unauthenticated fragments", "fb_count": c["fb_count"]},
-                    "about 1000 small unauthenticated epoch-0 handshake fragments of future message_seq fill the "
-                    "reassembly buffer for good; afterwards EVERY record (application data, alerts, handshake) is "
-                    "dropped: %s [variant %s, %d/%d such cases]" % (
-                        "a fresh genuine payload is never delivered on the established connection"
-                        if c["stage"] < 0 else "the handshake in progress never completes",
-                        c["variant"], len(bad), len(ff)),
+        if phase == "established":
+            site = ("internal/fragmentbuffer/fragment_buffer.go Push (limit check precedes the content-type check) / "
+                    "conn.go bufferHandshakeRecord")
+            what = ("about 1000 small unauthenticated epoch-0 handshake fragments of future message_seq fill the reassembly "
+                    "buffer for good; afterwards EVERY record (application data, alerts, handshake) is dropped: a fresh "
+                    "genuine payload is never delivered on the established connection")
+        else:
+            site = "internal/fragmentbuffer/fragment_buffer.go Push (fixed limits, nothing is ever evicted) / conn.go bufferHandshakeRecord"
+            what = ("about 1000 small unauthenticated epoch-0 handshake fragments of future message_seq fill the reassembly "
+                    "buffer for good; every later handshake record of the genuine peer is refused, so the handshake in "
+                    "progress never completes (it stalls until the caller's deadline)")
+        chk.finding(site,
+                    {"monitor": "receive path wedged by unauthenticated fragments", "phase": phase, "fb_count": c["fb_count"]},
+                    "%s [variant %s, %d/%d such cases]" % (what, c["variant"], len(bad), len(sel)),
                     {"how": "VERIF_C08_ONLY=%d; datagram i = 16fefd 0000 00000000<9000+i> <len> | 0b 000fa0 "
                             "<recv_seq+1+i> 000000 000008 | 8 bytes" % c["id"], "case": c,
                      "reading": "no limit is exceeded and nothing panics, but the endpoint no longer serves valid "
